@@ -227,12 +227,12 @@ func (cpu *CPU) processInterrupt() bool {
 	case 0:
 		// Interrupt with IM 0
 		if len(cpu.Interrupt.Data) > 0 {
+			cpu.IFF1 = false
+			cpu.IFF2 = false
 			savedMemory := cpu.Memory
 			cpu.Memory = newIm0data(cpu.PC, cpu.Interrupt.Data, savedMemory)
 			cpu.executeOne()
 			cpu.Memory = savedMemory
-			cpu.IFF1 = false
-			cpu.IFF2 = false
 		}
 		return true
 	case 1:
